@@ -155,6 +155,16 @@ def make_pool(tier):
     p["SCA2"] = darsia.ScalingModel(scaling=2.0)
     p["CLIP"] = darsia.ClipModel(**{"min value": 0.25, "max value": 0.5})
     p["THR"] = darsia.StaticThresholdModel(0.25, 0.75)
+    # label-wise threshold bounds handed over as float64 arrays, a two-label map and a bimodal signal
+    p["THRLO"] = np.array([0.0, 0.1])
+    p["THRHI"] = np.array([1.0, 0.9])
+    p["THRLOL"] = [0.0, 0.1]
+    lab2 = np.zeros((12, 16), dtype=int)
+    lab2[:, 8:] = 1
+    p["LAB2"] = lab2
+    ii, jj = np.indices((12, 16))
+    p["BIMODAL"] = np.where((3 * ii + 5 * jj) % 7 < 3, 0.2, 0.7) + 0.03 * (((7 * ii + 11 * jj) % 13) / 13.0 - 0.5)
+    p["MASK2"] = np.arange(12 * 16).reshape(12, 16) >= 32
     p["COMBI"] = darsia.CombinedModel([darsia.ClipModel(**{"min value": 0.25, "max value": 0.75}), darsia.ScalingModel(scaling=4.0)])
     p["COMBA"] = darsia.CombinedModel([darsia.LinearModel(scaling=0.5, offset=1.0), darsia.ClipModel(**{"min value": 1.0, "max value": 1.25})])
     p["RSZ"] = darsia.Resize(fx=0.5, fy=0.5, interpolation="inter_area", **{"resize conservative": True})
@@ -1219,6 +1229,25 @@ for _nm, _m in (("LinearModel", "LIN"), ("ScalingModel(2)", "SCA2"), ("ScalingMo
 
     _mk()
 
+
+for _meth in ("otsu", "tailored global min", "tailored otsu"):
+    for _bounds in ("arrays", "list+array"):
+        for _mask in (False, True):
+
+            def _mk(_meth=_meth, _bounds=_bounds, _mask=_mask):
+                @op(f"model/DynamicThresholdModel/{_meth}/bounds={_bounds}/mask={_mask}", dom="none", group="model-DynamicThresholdModel")
+                def _a(c, x):
+                    import darsia
+
+                    lo = c.use(c["THRLO"] if _bounds == "arrays" else c["THRLOL"], "threshold_lower")
+                    model = darsia.DynamicThresholdModel(method=_meth, threshold_lower=lo, threshold_upper=c.use(c["THRHI"], "threshold_upper"), labels=c.use(c["LAB2"], "labels"))
+                    sig = c.use(c["BIMODAL"], "signal")
+                    args = (c.use(c["MASK2"], "mask"),) if _mask else ()
+                    first = model(sig, *args)
+                    second = model(0.9 * sig, *args)  # a re-used model: the bounds of the first call are still the caller's
+                    return [first, second]
+
+            _mk()
 
 # ---- integration ----------------------------------------------------------------------------
 @op("Geometry.integrate/own-geometry", group="Geometry.integrate")
